@@ -147,13 +147,20 @@ theorem C08_math_sound (I : Interp) (env : VEnv) :
         · rename_i hp'
           simp only [Option.some.injEq] at hname
           subst hname
-          simpa [pyCall, libParents_sub hp'] using hq
+          -- `math.remainder` is not accepted, every other `module.name` means what the bare name means
+          have hnot : ¬ (p = "math" ∧ a = "remainder") := by
+            rintro ⟨rfl, rfl⟩
+            rcases hcases with ⟨_, _, hm⟩ | ⟨_, _, him, _⟩ | ⟨_, hm⟩
+            · exact (remainder_not_unary_nary t).1 hm
+            · simp [calleeIsMath] at him
+            · exact (remainder_not_unary_nary t).2 hm
+          simpa [pyCall, libParents_sub hp', pySemLib_eq hnot] using hq
         · simp at hname
       | libDeep => simp [calleeName] at hname
       | other => simp [calleeName] at hname
     have hlen : ms.length = args.length ∧ vs.length = args.length :=
       ⟨convertList_length hms, evalPyList_length hvs⟩
-    rcases hcases with ⟨rfl, hn, hm⟩ | ⟨rfl, hn, hm⟩ | ⟨rfl, hm⟩
+    rcases hcases with ⟨rfl, hn, hm⟩ | ⟨rfl, hn, _, hm⟩ | ⟨rfl, hm⟩
     · -- unary
       obtain ⟨hms1, hvs1⟩ := hlen
       rw [hn] at hms1 hvs1
@@ -337,7 +344,7 @@ theorem C08_unsupported_raises :
     cases hn : calleeName f with
     | error err => exact ⟨err, by simp [convert, hn, bind, Except.bind]⟩
     | ok name =>
-      cases hk : callKind name args.length with
+      cases hk : callKind name (calleeIsMath f) args.length with
       | error err => exact ⟨err, by simp [convert, hn, hk, bind, Except.bind]⟩
       | ok r =>
         obtain ⟨t, k, u⟩ := r
@@ -648,8 +655,16 @@ theorem C08_roundtrip_rhs_fails :
 theorem C08_tables :
     ifexpOrder = [.body, .test, .orelse] ∧ computedSide = .product ∧ negSide = .reactant ∧
     nonnegSide = .product ∧ unknownCallRaises = true ∧ arityChecked = true ∧ logWithBase = true ∧
-    iaSetterExists = true ∧ libParents = pyLibs := by
+    iaSetterExists = true ∧ libParents = pyLibs ∧ binaryNumpyOnly = true := by
   decide
+
+/-- why `math.remainder` must not be exported as `rem` (finding F-C08-11, repaired): the IEEE remainder
+    of 5 by 3 is −1, the MathML / numpy one is 2 -/
+theorem C08_math_remainder_differs (I : Interp) :
+    Sem.eval I .ieeeRem [5, 3] = some (-1) ∧ Sem.eval I .rem [5, 3] = some 2 := by
+  have h1 : Sem.eval (fun _ _ => none) .ieeeRem [5, 3] = some (-1) := by decide +kernel
+  have h2 : Sem.eval (fun _ _ => none) .rem [5, 3] = some 2 := by decide +kernel
+  exact ⟨h1, h2⟩
 
 /-- no function name is in two of the UNARY / BINARY / NARY tables (the order of the lookups is immaterial) -/
 theorem C08_tables_disjoint :
